@@ -58,6 +58,8 @@ func main() {
 		cmdReclaim(fs, os.Args[2:])
 	case "blockmap":
 		cmdBlockMap(fs, os.Args[2:])
+	case "cache":
+		cmdCache(fs, os.Args[2:])
 	case "simpleconc":
 		cmdSimpleConc(fs, os.Args[2:])
 	case "kvsconc":
